@@ -287,6 +287,11 @@ def value_shapes(tier):
     add('C07 value constrained ref INTEGER', ['Tt ::= INTEGER (0..4294967295)'], 'v', 'Tt', str(PH(0)), I(0), 1)
     add('C07 value named number', ['Tt ::= INTEGER { one(1), big(%d) }' % PH(0)], 'v', 'Tt', 'big', I(0), 1)
     add('C07 value reference', [f"w INTEGER ::= {PH(0)}"], 'v', 'INTEGER', 'w', I(0), 1)
+    # a value reference to a value of an alias type (re-linked through the alias chain), as value and as DEFAULT
+    add('C07 value reference alias type', ['Tt ::= INTEGER', 'Uu ::= Tt', f"w Uu ::= {PH(0)}"], 'v', 'Uu', 'w', I(0), 1)
+    add('C07 value reference alias-alias type', ['Tt ::= INTEGER (0..4294967295)', 'Uu ::= Tt', 'Ww ::= Uu', f"w Ww ::= {PH(0)}"], 'v', 'Ww', 'w', I(0), 1)
+    add('C07 default value reference alias type', ['Tt ::= INTEGER', 'Uu ::= Tt', f"w Uu ::= {PH(0)}", 'Ss ::= SEQUENCE { x Uu DEFAULT w }'], None, None, None, I(0), 1, dflt='ss_x_default')
+    add('C07 default value reference other type', ['Tt ::= INTEGER (0..4294967295)', f"w INTEGER ::= {PH(0)}", 'Ss ::= SEQUENCE { x Tt DEFAULT w }'], None, None, None, I(0), 1, dflt='ss_x_default')
     add('C07 value BOOLEAN TRUE', [], 'v', 'BOOLEAN', 'TRUE', V('bool', b=True), 0)
     add('C07 value BOOLEAN FALSE', [], 'v', 'BOOLEAN', 'FALSE', V('bool', b=False), 0)
     add('C07 value NULL', [], 'v', 'NULL', 'NULL', V('null'), 0)
@@ -343,6 +348,8 @@ def value_shapes(tier):
     add("C07 value SEQUENCE", ['Ss ::= SEQUENCE { x INTEGER, y BOOLEAN, z INTEGER }'], 'v', 'Ss', f"{{ x {PH(0)}, y TRUE, z {PH(1)} }}", V('seq', fields=[('x', I(0)), ('y', V('bool', b=True)), ('z', I(1))]), 2)
     add("C07 value SEQUENCE reordered", ['Ss ::= SEQUENCE { x INTEGER, y BOOLEAN, z INTEGER }'], 'v', 'Ss', f"{{ z {PH(1)}, x {PH(0)}, y TRUE }}", V('seq', fields=[('x', I(0)), ('y', V('bool', b=True)), ('z', I(1))]), 2)
     add("C07 value SEQUENCE with default omitted", ['Ss ::= SEQUENCE { x INTEGER, y INTEGER DEFAULT %d }' % PH(1)], 'v', 'Ss', f"{{ x {PH(0)} }}", V('seq', fields=[('x', I(0)), ('y', I(1))]), 2)
+    add("C07 value SEQUENCE with default overridden", ['Ss ::= SEQUENCE { x INTEGER DEFAULT 5, y BOOLEAN, z INTEGER DEFAULT %d }' % PH(1)], 'v', 'Ss', f"{{ x {PH(0)}, y TRUE }}", V('seq', fields=[('x', I(0)), ('y', V('bool', b=True)), ('z', I(1))]), 2)
+    add("C07 value SET with defaults overridden", ['Ss ::= SET { x INTEGER DEFAULT 0, y INTEGER DEFAULT 0 }'], 'v', 'Ss', f"{{ x {PH(0)}, y {PH(1)} }}", V('seq', fields=[('x', I(0)), ('y', I(1))]), 2)
     add("C07 value SEQUENCE OF", ['Ll ::= SEQUENCE OF INTEGER'], 'v', 'Ll', f"{{ {PH(0)}, {PH(1)}, {PH(2)} }}", V('list', items=[I(0), I(1), I(2)]), 3)
     add("C07 value nested", ['Ss ::= SEQUENCE { c CHOICE { one INTEGER, two BOOLEAN }, l SEQUENCE OF INTEGER }'], 'v', 'Ss', f"{{ c one:{PH(0)}, l {{ {PH(1)} }} }}", V('seq', fields=[('c', V('choice', alt='one', inner=I(0))), ('l', V('list', items=[I(1)]))]), 2)
     # DEFAULTs: the value of the generated default function
